@@ -32,9 +32,16 @@ class C06(Machine):
         pb = PlanBuilder(self.prop, seed, idx)
         nobj = rng.choice([1, 1, 2, 3])
         objs = []
+        keys = []
         for _ in range(nobj):
-            kl = rng.choice(KLENS)
-            key = rbytes(rng, kl)
+            v = rng.random()
+            if keys and v < 0.3:
+                key = keys[0]                                   # an equal key on another object
+            elif keys and v < 0.5:
+                key = rbytes(rng, len(keys[0]))                 # same length, other bytes
+            else:
+                key = rbytes(rng, rng.choice(KLENS))
+            keys.append(key)
             objs.append(pb.obj({"kind": "RC4", "key": B(key)}))
         nclients = rng.choice([1, 2, 2])
         shared = nclients == 2 and rng.random() < 0.5
@@ -51,7 +58,7 @@ class C06(Machine):
                     pb.step(c, k="call", obj=o, name="dec", args=[B(rbytes(rng, n))], kw={}, tag="dec:" + _lc(n))
                 else:
                     pb.step(c, k="call", obj=o, name="keystream", args=[min(n, 300)], kw={}, tag="ks:" + _lc(n))
-            if rng.random() < 0.3 and nobj > 1:
+            if rng.random() < 0.5 and nobj > 1:
                 # noise on a sibling object in the middle of somebody's stream
                 so = objs[-1]
                 pb.step(c, k="call", obj=so, name="enc", args=[B(rbytes(rng, rng.choice(PLENS)))], kw={}, tag="sib_enc")
